@@ -177,7 +177,8 @@ class GaussianUnitary(Compiler):
             modes = [modes_label.ind for modes_label in operations.reg]
             used_modes.append(modes)
         # pylint: disable=consider-using-set-comprehension
-        used_modes = list(set([item for sublist in used_modes for item in sublist]))
+        # sorted, so that the internal indices follow the order of the output register
+        used_modes = sorted(set([item for sublist in used_modes for item in sublist]))
 
         # dictionary mapping the used modes to consecutive non-negative integers
         dict_indices = {used_modes[i]: i for i in range(len(used_modes))}
